@@ -1,8 +1,8 @@
 SPECIFICATION MCSpec
 CONSTANTS
-  Sess = {"a", "b", "c"}
+  Sess = {"a", "b"}
   Bytes = {1, 2}
-  MaxXfer = 1
+  MaxXfer = 3
   Lifecycle = "real"
   DoubleCount = FALSE
   FailedChoices = {"none", "last"}
